@@ -1436,7 +1436,7 @@ def r14_defaults_do_not_override_directives(a, tier, rule_id='C02.R14'):
             recv_fresh_from_source = 'srcconfig' in norm(n.func.value) or '_config' in norm(through_locals(f, n.func.value))
             rep.add({'site': f'{f.qualname}: {norm(n)[:70]}', 'overriding_side_is_freshly_defaulted': bool(fresh), 'overridden_side': norm(n.func.value)})
             if fresh:
-                rep.fail(f.qualname, f'defaults-override:{norm(n.func.value)}', f'`{norm(n)}` in {f.qualname}: the overriding side was made by `{norm(fresh[0])[:60]}` and carries the built-in '
+                rep.fail(f.qualname, 'defaults-override:rule-source-configuration', f'`{norm(n)}` in {f.qualname}: the overriding side was made by `{norm(fresh[0])[:60]}` and carries the built-in '
                          f'defaults as values, the overridden side `{norm(n.func.value)}` carries the settings of the rule source (the grammar\'s directives): @@parseinfo :: True and '
                          f'@@left_recursion :: False are lost in every generated parser, which the model honours', f'{f.module.relpath}:{n.lineno}')
     if sites < 2:
